@@ -172,6 +172,27 @@ CHECKS = {
              'outputs per triple (needs no model fidelity), and equality with the model is recorded as drift only.',
         note='universe = structured families (access chains <= 3, one/two-level consumers, six contexts, fromJSON literal vs '
              'expression), not all depth-3 expressions; property judged as acceptance, not error-set inclusion (see c06.py)'),
+    'C07': dict(
+        category='model_checking', design_ref='5 (C07), Position',
+        technique='TLA+ spec Position.tla (documents rendered to text inside TLA+ = declarative truth of every target position, '
+                  'vs. the operational column arithmetic of checkExprsIn / if-conditions / globs / key-value nodes) checked by '
+                  'TLC incl. the shift law; every placement vector rendered (validated against yaml.v3) and linted, the '
+                  'diagnostic of the class must sit exactly at the predicted position; shift relation on two real outputs',
+        text='61 diagnostic classes x complete TLC placement spaces (indentation, nesting, block/flow, plain/single/double '
+             'quoting, prefix text, earlier placeholders, inserted characters/lines): 19 k (quick) / 175 k (thorough) real '
+             'lints with TLC-predicted (line, column); bounds 1 <= line <= #lines, col >= 1 on every diagnostic and on 195 testdata files.',
+        note='one-line ASCII constructs without escape sequences only (as the property says); lexer EOF class excluded; one '
+             'known finding (quoted matrix value, test-pinned struct literal)'),
+    'C08': dict(
+        category='model_checking', design_ref='5 (C08), Names',
+        technique='TLA+ spec Names.tla (catalogue of name kinds x definition sites x use sites, per-site fold tables of the code vs. '
+                  '"equal modulo case", flip law, negative controls) checked by TLC; every TLC state rendered twice (all lower '
+                  'case vs. flipped spelling, same text length) and linted by the real code; the two real outputs compared',
+        text='116 (kind, definition site, use site) scenarios incl. callee files, local actions, bundled actions and built-in '
+             'tables, all occurrence subsets up to size 2-3 in a sink repository, plus a corpus re-spelling of all testdata '
+             'workflows; verdict = relation between two real outputs, the spec supplies pairs and which must differ (controls).',
+        note='JSON literals with two keys equal modulo case are outside the universe; permission scopes / service ids are '
+             'notes only (not listed kinds)'),
 }
 
 REASON_NOT_YET = 'check not built yet in this revision of /verif (planned, see DESIGN.md section 5); not claimed'
